@@ -369,6 +369,12 @@ class Seams:
                     run.units.append((kind, run.current_tx, uid, None, len(r[0])))
                     run.unit_peptides[key] = sorted(str(x) for x in r[0])
                     return r
+                if f is not None and f.get('once') and any(x['unit'] == key for x in run.fault_fired):
+                    # one-shot fault already delivered (the retry of the unit runs undisturbed)
+                    r = orig(*a, **k)
+                    run.units.append((kind, run.current_tx, uid, None, len(r[0])))
+                    run.unit_peptides[key] = sorted(str(x) for x in r[0])
+                    return r
                 kfire = f['k'] if f else None
                 if f is not None and kfire == 0:
                     run.fault_fired.append({'unit': key, 'k': 0, 'site': 'entry', 'exc': f['exc']})
